@@ -370,7 +370,8 @@ def stale_pick(events, uid: int) -> bool:
     for ev in events[start:arr]:
         if ev.get('s') in holders and (
                 (ev['e'] == 'start' and ev['k'] == 'select')
-                or (ev['e'] == 'tagged' and not (ev['selected'] and ev['mbx'] == dest))
+                or (ev['e'] == 'tagged' and not (ev['selected'] and ev['mbx'] == dest
+                                                 and not ev['ro']))
                 or ev['e'] in ('bye', 'cancel', 'drop')):
             holders.discard(ev['s'])
     return not holders
